@@ -9,8 +9,14 @@ SLICING_CALLS = ("index", "index_mut", "get", "get_mut", "split_at", "split_at_m
 
 
 def adapters_in(src):
-    return [x[1].split("::")[-1] for x in walk(src) if isinstance(x, tuple) and x[0] == "call"
-            and x[1].split("::")[-1] in TRUNCATING_ADAPTERS]
+    """truncating *iterator* adapters applied inside a term (slice::last etc. are not adapters)"""
+    out = []
+    for x in walk(src):
+        if isinstance(x, tuple) and x[0] == "call":
+            name = x[1].split("::")[-1]
+            if name in TRUNCATING_ADAPTERS and ("Iterator" in x[1] or "iter::" in x[1] or "Iterator" in (x[4] or "")):
+                out.append(name)
+    return out
 
 
 def loop_covers_all(ctx, rule, f, edge, source_pat, desc, key=None, refusal=("err",)):
